@@ -2,30 +2,39 @@
 (* C08, compaction part, on real NodeHosts (nhsim, mode snap): whenever a replica is        *)
 (* restarted after a power loss, what the log store holds for it must continue the recorded *)
 (* snapshot without a gap (log compaction is always covered by a snapshot the replica can   *)
-(* recover from), and the restart itself must not panic.                                    *)
+(* recover from), and the restart itself must not panic.  On-disk state machines: a        *)
+(* snapshot the replica records for itself says how far the state machine's own durable      *)
+(* state reaches (OnDiskIndex) - the log is compacted on that promise; it must not be ahead  *)
+(* of what the state machine had made durable (Sync) when the record was written.            *)
 EXTENDS Pipeline, Json, TLC
 
 CONSTANT TraceFile
-VARIABLES l, bad, cnt
+VARIABLES l, bad, cnt, synced
 Trace == ndJsonDeserialize(TraceFile)
-vars == <<l, bad, cnt>>
+vars == <<l, bad, cnt, synced>>
 Flag(ev, what, detail) == bad \cup {<<ev.t, ev.i, what, detail>>}
 BootImage(ev) == [term |-> ev.term, vote |-> ev.vote, commit |-> ev.commit,
                   base |-> IF Len(ev.terms) = 0 THEN ev.ssindex ELSE ev.first - 1,
                   log |-> ev.terms, ss |-> ev.ssindex, ssterm |-> ev.ssterm]
 
-Init == l = 1 /\ bad = {} /\ cnt = [boots |-> 0, withsnapshot |-> 0, compacted |-> 0]
+Init == l = 1 /\ bad = {} /\ cnt = [boots |-> 0, withsnapshot |-> 0, compacted |-> 0, ondiskrecords |-> 0] /\ synced = [h \in 1..8 |-> 0]
 Next ==
   /\ l <= Len(Trace)
   /\ l' = l + 1
   /\ LET ev == Trace[l] IN
-     CASE ev.ev = "Panic" -> bad' = Flag(ev, "Panic", {ev.msg}) /\ UNCHANGED cnt
+     CASE ev.ev = "Panic" -> bad' = Flag(ev, "Panic", {ev.msg}) /\ UNCHANGED <<cnt, synced>>
+       [] ev.ev = "Init" -> synced' = [h \in 1..8 |-> 0] /\ UNCHANGED <<bad, cnt>>
+       [] ev.ev = "Persisted" -> synced' = [synced EXCEPT ![ev.h] = IF ev.applied > @ THEN ev.applied ELSE @] /\ UNCHANGED <<bad, cnt>>
+       [] ev.ev = "SsRecord" /\ ev.disksm /\ ~ev.imported ->
+            /\ bad' = IF ev.ondisk <= synced[ev.h] THEN bad ELSE Flag(ev, "snapshot_record_ahead_of_synced_state", {ev.h})
+            /\ cnt' = [cnt EXCEPT !.ondiskrecords = @ + 1] /\ UNCHANGED synced
        [] ev.ev = "Boot" ->
             LET r == BootImage(ev) IN
             /\ bad' = IF LogContinuesSnapshot(r) THEN bad ELSE Flag(ev, "gap_between_snapshot_and_log", {ev.h})
             /\ cnt' = [cnt EXCEPT !.boots = @ + 1, !.withsnapshot = @ + (IF r.ss > 0 THEN 1 ELSE 0),
                                   !.compacted = @ + (IF r.base > 0 /\ Len(r.log) > 0 THEN 1 ELSE 0)]
-       [] OTHER -> UNCHANGED <<bad, cnt>>
+            /\ UNCHANGED synced
+       [] OTHER -> UNCHANGED <<bad, cnt, synced>>
 Spec == Init /\ [][Next]_vars
 Report == IF l = Len(Trace) + 1 THEN PrintT(<<"CP-REPORT", Len(Trace), bad>>) /\ PrintT(<<"CP-COUNT", cnt>>) ELSE TRUE
 =============================================================================
